@@ -245,6 +245,78 @@ fn main() {
     for (k, (label, text)) in infinite_type_texts().into_iter().chain(arity_texts()).chain(illformed_decl_texts()).chain(diverging_texts()).chain(literal_edge_texts()).chain(default_binding_texts()).chain(namespace_texts()).chain(assignment_texts()).enumerate() {
         jobs.push(Job { label, text, model: k % 25 == 0 });
     }
+    // dot completion behind every kind of receiver: in the stream (every offset, worker processes) …
+    let compl = completion_texts();
+    for (label, text, _, _, _) in &compl {
+        jobs.push(Job { label: label.clone(), text: text.clone(), model: false });
+    }
+    // … and against their expected answers (in process; a panic is caught and reported with text and offset)
+    for (label, text, off, must, empty) in &compl {
+        let (main, extra): (&str, Vec<(String, String)>) = match text.split_once('\x1e') {
+            Some((m, l)) => (m, vec![("lib1.abra".to_string(), l.to_string())]),
+            None => (text.as_str(), vec![]),
+        };
+        let r = catch_unwind(AssertUnwindSafe(|| {
+            let a = check_lsp("main.abra", provider(main, &extra));
+            a.completions_at(0, *off).into_iter().map(|c| c.label).collect::<Vec<String>>()
+        }));
+        ctx.count("completion-oracle");
+        match r {
+            Err(p) => ctx.spec_fail(format!("completions_at panics ({}) at byte offset {off} of the text {:?} ({label})", panic_msg(p), main)),
+            Ok(labels) => {
+                let missing: Vec<&&str> = must.iter().filter(|m| !labels.iter().any(|l| l == **m)).collect();
+                if !missing.is_empty() || (*empty && !labels.is_empty()) {
+                    ctx.spec_fail(format!(
+                        "completions_at at byte offset {off} of {:?} ({label}) answers {:?}; expected {}",
+                        main, labels.iter().take(12).collect::<Vec<_>>(),
+                        if *empty { "nothing".to_string() } else { format!("to contain {:?}", must) }
+                    ));
+                }
+            }
+        }
+    }
+    // the entry points of the API on degenerate arguments
+    {
+        let r = catch_unwind(|| {
+            let mut notes = vec![];
+            // a main file that does not exist
+            let a = check_lsp("main.abra", abra_core::MockFileProvider::new(Default::default()));
+            if a.errors().is_empty() {
+                notes.push("check_lsp on a missing main file reports no error".to_string());
+            }
+            for off in [0usize, 1, 7] {
+                if a.definition_at(0, off).is_some() || a.type_at(0, off).is_some() || !a.completions_at(0, off).is_empty() {
+                    notes.push(format!("a query at offset {off} answers although the main file does not exist"));
+                }
+            }
+            // file ids that do not exist
+            let b = check_lsp("main.abra", provider("let v = [1]\nv.\n", &[]));
+            for fid in [7u32, 99, u32::MAX] {
+                if !b.completions_at(fid, 14).is_empty() || b.definition_at(fid, 4).is_some() || b.type_at(fid, 4).is_some() {
+                    notes.push(format!("a query on file id {fid}, which does not exist, answers"));
+                }
+            }
+            if b.file_id_for_path(std::path::Path::new("nothere.abra")).is_some() {
+                notes.push("file_id_for_path finds a file that was never loaded".to_string());
+            }
+            // D94: a main file named prelude.abra
+            let mut m: std::collections::HashMap<std::path::PathBuf, String> = Default::default();
+            m.insert("prelude.abra".into(), "println(1)\n".to_string());
+            let c = check_lsp("prelude.abra", abra_core::MockFileProvider::new(m));
+            let _ = c.errors();
+            let _ = (c.definition_at(0, 0), c.type_at(0, 0), c.completions_at(0, 0));
+            notes
+        });
+        ctx.count("api-edge-cases");
+        match r {
+            Err(p) => ctx.spec_fail(format!("editor API panics on a degenerate argument (missing main file / unknown file id / main file named prelude.abra): {}", panic_msg(p))),
+            Ok(notes) => {
+                for n in notes {
+                    ctx.spec_fail(n);
+                }
+            }
+        }
+    }
     let nw = n_threads();
     // regression inputs: the confirmed crashes whose fixes have landed (fecorpus::GATES); a crash is a failing input
     let gate_inputs: Vec<String> = GATES.iter().map(|(id, t)| format!("-\x1fgate:{id}\x1f{t}")).collect();
@@ -267,7 +339,7 @@ fn main() {
     let mut seen: BTreeMap<(String, String), u64> = BTreeMap::new();
     let mut queries = 0u64;
     for (j, r) in jobs.iter().zip(results) {
-        let kind = j.label.split(':').take(if j.label.starts_with("mut") || j.label.starts_with("inftype") || j.label.starts_with("arity") || j.label.starts_with("illdecl") || j.label.starts_with("diverge") || j.label.starts_with("litedge") || j.label.starts_with("defbind") || j.label.starts_with("nsuse") || j.label.starts_with("assign") { 2 } else { 1 }).collect::<Vec<_>>().join(":");
+        let kind = j.label.split(':').take(if j.label.starts_with("mut") || j.label.starts_with("inftype") || j.label.starts_with("arity") || j.label.starts_with("illdecl") || j.label.starts_with("diverge") || j.label.starts_with("litedge") || j.label.starts_with("defbind") || j.label.starts_with("nsuse") || j.label.starts_with("assign") || j.label.starts_with("complete") { 2 } else { 1 }).collect::<Vec<_>>().join(":");
         ctx.count(&format!("text:{kind}"));
         if !j.text.is_ascii() {
             ctx.count("text:non-ascii");
